@@ -360,10 +360,55 @@ def own_get_case():
     return None
 
 
+def binding_variants_case():
+    """(a) a derived class declares a NEWER version of its base's interface under the same name, with one more property, and binds it;
+    (b) a property bound to the class after the class statement (a decorator, generated bindings): both are properties like any other"""
+    from txdbus import interface, objects
+    v1 = interface.DBusInterface('org.verif.Versioned', interface.Property('Alpha', 'i', writeable=True), noRegister=True)
+    v2 = interface.DBusInterface('org.verif.Versioned', interface.Property('Alpha', 'i', writeable=True), interface.Property('Beta', 's', writeable=True), noRegister=True)
+
+    class Old(objects.DBusObject):
+        dbusInterfaces = [v1]
+        alpha = objects.DBusProperty('Alpha')
+
+    class New(Old):
+        dbusInterfaces = [v2]
+        beta = objects.DBusProperty('Beta', 'org.verif.Versioned')
+
+    class Plain(objects.DBusObject):
+        dbusInterfaces = [interface.DBusInterface('org.verif.Late', interface.Property('Late', 'u', writeable=True), noRegister=True)]
+    Plain.late = objects.DBusProperty('Late')
+    for what, cls, sets, iname in (('a derived class declaring a newer version of its base interface', New, {'alpha': 1, 'beta': 'b'}, 'org.verif.Versioned'),
+                                   ('a property bound to the class after the class statement', Plain, {'late': 5}, 'org.verif.Late')):
+        conn = Conn()
+        handler = objects.DBusObjectHandler(conn)
+        try:
+            o = cls('/org/verif/Props')
+            for a, v in sets.items():
+                setattr(o, a, v)
+            handler.exportObject(o)
+        except Exception as e:
+            return '%s: assigning its properties and exporting it raised %s: %s' % (what, type(e).__name__, e)
+        want = {{'alpha': 'Alpha', 'beta': 'Beta', 'late': 'Late'}[a]: v for a, v in sets.items()}
+        for pn, v in want.items():
+            p, out = call(handler, conn, 'Get', 'ss', [iname, pn])
+            kind, r, f = reply_of(p, out, '%s: Get(%s)' % (what, pn))
+            if f or kind != 'ok' or r.body != [v]:
+                return '%s: Get(%s, %s) answered %s %r, the value is %r' % (what, iname, pn, kind, f or getattr(r, 'body', r), v)
+        p, out = call(handler, conn, 'GetAll', 's', [iname])
+        kind, r, f = reply_of(p, out, '%s: GetAll' % what)
+        if f or kind != 'ok' or r.body != [want]:
+            return '%s: GetAll(%s) answered %s %r, the readable properties are %r' % (what, iname, kind, f or getattr(r, 'body', r), want)
+    return None
+
+
 def bounded(tier, seed):
     f = own_get_case()
     if f:
         return 1, f, {'case': 'own methods named Get / Set / GetAll'}
+    f = binding_variants_case()
+    if f:
+        return 2, f, {'case': 'binding variants'}
     rnd = random.Random(seed * 811 + 29)
     n = 0
     for s in range(12000 if tier == 'thorough' else 50):
